@@ -1087,6 +1087,10 @@ class Interp:
                 if not isinstance(o, Obj):
                     o = env[t.value.id] = Obj()
                 o.attrs[t.attr] = v
+            else:
+                o = self.eval(t.value, env, ctx)
+                if isinstance(o, Obj):
+                    o.attrs[t.attr] = v
         elif isinstance(t, ast.Subscript):
             base = self.eval(t.value, env, ctx)
             if isinstance(base, (dict, list)) and not isinstance(t.slice, ast.Slice):
